@@ -11,7 +11,7 @@ git apply --check "$md/patch.diff" || { echo "CONFIRM patch does not apply"; exi
 git apply "$md/patch.diff"
 fails=$(cargo test --workspace --no-fail-fast --offline 2>&1 | grep -E "^test .* FAILED$" | sort | tr '\n' ' ')
 pyok=$(cargo test --offline -p lightmotif-py 2>&1 | grep -cE "^OK$")
-cp "$md/demo.rs" "$dest"
+mkdir -p "$(dirname "$dest")"; cp "$md/demo.rs" "$dest"
 cargo test --offline -p "$crate" --test "$tname" >/tmp/mut/demo_m.log 2>&1; rc_m=$?
 git checkout -q -- .
 cargo test --offline -p "$crate" --test "$tname" >/tmp/mut/demo_c.log 2>&1; rc_c=$?
